@@ -90,7 +90,8 @@ IsMean(m, w, vv) == LET u == SortSet({x \in SeqSet(vv) : x >= 0}) IN
          m[k][2] = Cardinality(S) /\ m[k][1] = SumSeq([i \in 1..Len(vv) |-> IF i \in S THEN w[i] ELSE 0])
 
 ReqLists == {<<>>} \cup {<<a>> : a \in ReqAlpha} \cup {<<a, b>> : a \in ReqAlpha, b \in ReqAlpha}
-Lookups(vv) == {SortSet(SeqSet(vv) \cup {5}), <<7, 0, 3, 2>>, <<2, 7, 3, 0, 5>>}
+Lookups(vv) == {SortSet(SeqSet(vv) \cup {5}), <<7, 0, 3, 2>>, <<2, 7, 3, 0, 5>>,
+                <<3, 0, 2, 1>>, <<0, 1, 2, 3>>}       \* permutations of a dense range 0..n-1 too
 Weights(vv) == [i \in 1..Len(vv) |-> 2 * i + 1]
 
 GroupsOk == done => IsGroups(SpikesPerCluster(v, IdsOf(v, withIds), bits), v, IdsOf(v, withIds))
